@@ -95,6 +95,14 @@ def step (ws : List String) : String :=
       let env : Env := ⟨genCfg.waitNotifies, genCfg.catchesPanic, fun _ => .ok⟩
       if allDone (run env (init 1) (sequentialSchedule 1)) 1 then s!"returned {n}" else "blocked"
     | none => "bad-op"
+  | ["hr.fsodd", kS] =>
+    -- `k` hot_reload() calls on a cache over a directory tree in which hidden entries keep appearing: every request is answered
+    match kS.toNat? with
+    | some k =>
+      if k == 0 || k > 8 then "bad-op" else
+      let env : Env := ⟨genCfg.waitNotifies, genCfg.catchesPanic, fun _ => .ok⟩
+      if allDone (run env (init 1) (sequentialSchedule 1)) 1 then s!"returned {k}" else "blocked"
+    | none => "bad-op"
   | ["hr.static", kS] =>
     -- `k` sequential hot_reload() calls by one caller on a cache in static mode: every request is answered
     match kS.toNat? with
